@@ -620,3 +620,10 @@ func (g *WireGen) HostileVector(names []string) []string {
 	}
 	return out
 }
+
+// Keywords lists the option keywords of the grammar as spelled in the source.
+func (cg *CmdGrammar) Keywords() []string {
+	var out []string
+	collectKeywords(cg.Combs, &out)
+	return out
+}
